@@ -619,6 +619,39 @@ func runCase(r *h.Run, c caseT) {
 		time.Sleep(time.Duration(rng.Intn(3000)) * time.Microsecond)
 		stopFn = func() {
 			if c.Shutdown {
+				if c.Seed%2 == 0 {
+					// a connection handed to the engine while Shutdown is draining (what a WebSocket
+					// upgrade in blocking mode does with BlockingModTrasferConnToPoller): Shutdown closes
+					// it like every other connection and returns
+					wg.Add(1)
+					after := time.Duration(20+rng.Intn(80)) * time.Millisecond
+					go func() {
+						defer wg.Done()
+						hl, err := net.Listen("tcp", "127.0.0.1:0")
+						if err != nil {
+							return
+						}
+						defer hl.Close()
+						time.Sleep(after)
+						pc, err := net.DialTimeout("tcp", hl.Addr().String(), time.Second)
+						if err != nil {
+							return
+						}
+						other, err := hl.Accept()
+						if err != nil {
+							pc.Close()
+							return
+						}
+						addPeer(other)
+						nbc, err := nbio.NBConn(pc)
+						if err != nil {
+							return
+						}
+						if err := e.AddTransferredConn(nbc); err == nil {
+							r.Count("connections_transferred_to_the_http_engine_during_shutdown", 1)
+						}
+					}()
+				}
 				ctx, cancel := context.WithTimeout(context.Background(), 60*time.Second)
 				err := e.Shutdown(ctx)
 				cancel()
@@ -794,6 +827,7 @@ func guarded(r *h.Run, c caseT) {
 		r.Violate(fmt.Sprintf("c18:%s:spin-no-progress", fam), v.Detail, c)
 	default:
 		r.Inconclusive(fmt.Sprintf("case %d: %s", c.Index, v.Detail))
+		fmt.Printf("=== case %d did not return: %s\n%s\n", c.Index, v.Detail, h.Stacks())
 	}
 	r.Inconclusive(fmt.Sprintf("shard stopped after case %d (process state unrecoverable)", c.Index))
 	r.Finish()
